@@ -131,3 +131,50 @@ Proof.
     + intros idim Hd. rewrite (wcomb_Qeq ws l HF cs idim). exact (Hc idim Hd).
   - exfalso. apply E2. rewrite Hsw. unfold eps5. apply Qabs_case; intros; lra.
 Qed.
+
+(* ------------------------------------------------------------------ rows of MeshEStandard::resetProjMatrix *)
+Lemma standard_loop_rows_ge s : forall pts im0 iech e, In e (fst (standard_loop s pts im0 iech)) -> (iech <= fst e)%nat.
+Proof.
+  induction pts as [|c pts IH]; intros im0 iech e H; [destruct H|].
+  cbn [standard_loop] in H.
+  destruct (fst (s_search s c (rotate_from (length (s_meshes s)) im0) 1)) as [[imesh ws]|].
+  - cbn [fst] in H. destruct H as [H|H]; [subst e; cbn [fst]; lia|]. specialize (IH _ _ _ H). lia.
+  - cbn [fst] in H. specialize (IH _ _ _ H). lia.
+Qed.
+
+Definition srow_none : srow := {| sr_found := None; sr_margin := 1 |}.
+
+Lemma standard_loop_rows s : forall pts im0 iech k, (k < length pts)%nat ->
+  row_of (fst (standard_loop s pts im0 iech)) (iech + k) =
+  srow_entries s (nth k (snd (standard_loop s pts im0 iech)) srow_none).
+Proof.
+  induction pts as [|c pts IH]; intros im0 iech k Hk; [cbn in Hk; lia|].
+  cbn [standard_loop].
+  destruct (s_search s c (rotate_from (length (s_meshes s)) im0) 1) as [[[imesh ws]|] m] eqn:Es; cbn [fst snd].
+  - destruct k as [|k].
+    + rewrite Nat.add_0_r. cbn [nth]. unfold srow_entries. cbn [sr_found].
+      unfold row_of. cbn [flat_map fst snd]. rewrite Nat.eqb_refl.
+      fold (row_of (fst (standard_loop s pts imesh (S iech))) iech).
+      rewrite (row_of_nil _ iech); [apply app_nil_r|].
+      intros e He. pose proof (standard_loop_rows_ge _ _ _ _ _ He). lia.
+    + cbn [nth length] in *. replace (iech + S k)%nat with (S iech + k)%nat by lia.
+      unfold row_of at 1. cbn [flat_map fst snd].
+      destruct (Nat.eqb_spec iech (S iech + k)) as [E|E]; [lia|]. cbn [app].
+      apply IH; lia.
+  - destruct k as [|k].
+    + rewrite Nat.add_0_r. cbn [nth]. unfold srow_entries. cbn [sr_found].
+      apply row_of_nil. intros e He. pose proof (standard_loop_rows_ge _ _ _ _ _ He). lia.
+    + cbn [nth length] in *. replace (iech + S k)%nat with (S iech + k)%nat by lia. apply IH; lia.
+Qed.
+
+(* one row per sample, and row k holds the weights found for sample k (or nothing) *)
+Lemma standard_rows s pts :
+  fst (fst (proj_standard s pts)) = length pts /\
+  length (snd (fst (proj_standard s pts))) = length pts /\
+  forall k, (k < length pts)%nat ->
+    nth k (snd (fst (proj_standard s pts))) [] = srow_entries s (nth k (snd (proj_standard s pts)) srow_none).
+Proof.
+  unfold proj_standard. cbn [fst snd]. split; [reflexivity|]. split; [rewrite map_length, seq_length; reflexivity|].
+  intros k Hk. rewrite (nth_map_seq _ (length pts) k [] Hk).
+  apply (standard_loop_rows s pts 0 0 k Hk).
+Qed.
